@@ -109,6 +109,9 @@ def check(run):
         fq, desc, line = sfailed[0]
         run.violation("spmd:%s:%s" % (fq.split("::")[1], desc.split(" at line")[0]), "%s: structural SPMD obligation no longer holds: %s (%d failed)" % (fq, desc, len(sfailed)),
                       {"obligation": desc, "function": fq, "analysis": "pyvc/spmd.py collective_alignment / io_ownership"}, no_input=True)
+    run.assume("A-spmd: every rank calls make_changes / initial_sympify with the replicated arguments equal on all ranks and its local lists as indexed by its rank number; "
+               "collectives deliver what was sent (gather: list in rank order on the root, None elsewhere; bcast: the root's value everywhere)",
+               "slice starts abstracted to LO with LO(0)=0, LO(size)=N, monotone (each proved as a lemma for the closed form of utils.split_idx); np.cumsum as prefix sums")
     run.assume("A-mpi", "A-hash", "A-sympy: sympy calls are deterministic functions of their arguments within one process")
     run.trust("pyvc", "z3", "MPI stand-in /verif/stubs/mpi4py")
     return run.finish("other", META["text"], CHECKER)
